@@ -58,6 +58,44 @@ def run(chk, replay=None):
         chk.violation({"clause": clause, "cls": "", "field": "", "fmt": fmt, "path": path, "detail": detail,
                        "what": "round trip"}, dedup=(clause, fmt, path))
 
+    # several reports in flight: the caller parses a batch of READ ELEMENT STATUS reports (pages of different
+    # element types), then rebuilds each and parses the batch again - the same values, whatever was built between
+    # (first of all, so that nothing has been built in this process before the first parse)
+    RES = B["ReadElementStatus"]
+    decres = datafmt.decoder("ReadElementStatus")
+    for it in range(max(4, n // 4)):
+        batch = [datafmt.GEN["ReadElementStatus"](rng) for _ in range(4)]
+        try:
+            firsts = [decres(bytearray(b)) for b in batch]
+        except Exception:
+            continue
+        ev.case(("res-batch", bytes(batch[0])))
+        want = [norm(copy.deepcopy(x)) for x in firsts]
+        rebuilt = []
+        for x in firsts:
+            try:
+                rebuilt.append(bytes(RES.marshall_datain(copy.deepcopy(x))))
+            except Exception:
+                rebuilt.append(None)
+        for q, b in enumerate(batch):
+            try:
+                again = decres(bytearray(b))
+            except Exception as ex:
+                viol("ParseIsFresh", "ReadElementStatus", "after builds: raised " + type(ex).__name__, {})
+                continue
+            if norm(again) != want[q]:
+                f1, f2 = flatten(norm_b(want[q])), flatten(norm_b(again))
+                diff = sorted(z for z in set(f1) | set(f2) if f1.get(z) != f2.get(z))
+                viol("ParseIsFresh", "ReadElementStatus", "after builds: " + (re.sub(r"/\d+", "/*", diff[0]) if diff else "?"),
+                     {"differs": diff[:8]})
+            if rebuilt[q] is not None:
+                try:
+                    b2 = bytes(RES.marshall_datain(copy.deepcopy(again)))
+                    if b2 != rebuilt[q]:
+                        viol("BuildOfParse", "ReadElementStatus", "second build after other builds",
+                             {"first": list(rebuilt[q])[:64], "second": list(b2)[:64]})
+                except Exception as ex:
+                    viol("BuildOfParse", "ReadElementStatus", "after builds: raised " + type(ex).__name__, {})
     for fmt in sorted(B):
         K = B[fmt]
         dec = datafmt.decoder(fmt)
@@ -119,6 +157,61 @@ def run(chk, replay=None):
                     viol("BuildOfParse", fmt, "", {"first": list(built)[:64], "second": list(b2)[:64]})
             except Exception as ex:
                 viol("BuildOfParse", fmt, "raised " + type(ex).__name__, {})
+    # read - modify - write of a field whose size changes: the caller parses a Device Identification page, gives
+    # one designator a longer or shorter value and builds the page (the lengths in its dictionary are the ones
+    # parsed, now stale: the library states the lengths of what it builds); TLC judges the built page against the
+    # values meant, parsing it gives them back and the other designators are as they were
+    Inq = B["Vpd83"]
+    dec83 = datafmt.decoder("Vpd83")
+    VAR = {0: ("vendor_specific",), 1: ("vendor_specific_id",), 8: ("scsi_name_string",)}
+    for it in range(n):
+        b0 = datafmt.GEN["Vpd83"](rng)
+        try:
+            d = dec83(bytearray(b0))
+        except Exception:
+            continue
+        dds = d.get("designator_descriptors", [])
+        idx = [k for k, x in enumerate(dds) if x.get("designator_type") in VAR
+               and isinstance(x.get("designator"), dict) and VAR[x["designator_type"]][0] in x["designator"]]
+        if not idx:
+            continue
+        k = rng.choice(idx)
+        key = VAR[dds[k]["designator_type"]][0]
+        old = dds[k]["designator"][key]
+        if not isinstance(old, (bytes, bytearray)):
+            continue
+        newv = bytearray(old) + bytearray(rng.choice([b"-r", b"-replica", b"\0\0\0\0"])) if rng.getrandbits(1) or len(old) < 6 \
+            else bytearray(old[:len(old) - rng.choice([1, 2, 4])])
+        if dds[k]["designator_type"] == 8:
+            newv = bytearray(newv.rstrip(b"\0") or b"x")
+            newv += b"\0" * (4 - len(newv) % 4 if len(newv) % 4 else 0)          # name strings are padded to 4
+        dds[k]["designator"][key] = newv
+        meant = copy.deepcopy(d)
+        delta = len(newv) - len(old)
+        if "designator_length" in meant["designator_descriptors"][k]:
+            meant["designator_descriptors"][k]["designator_length"] += delta
+        if "page_length" in meant:
+            meant["page_length"] += delta
+        ev.case(("Vpd83-resize", bytes(b0), k, bytes(newv)))
+        e = {"ev": "Marshal", "fmt": "Vpd83", "in": flatten(meant) or {"#empty": []}, "bytes": [], "exc": ""}
+        try:
+            built = Inq.marshall_datain(copy.deepcopy(d))
+            e["bytes"] = list(built)
+        except Exception as ex:
+            e["exc"] = type(ex).__name__
+            marsh.append(e)
+            continue
+        marsh.append(e)
+        try:
+            d2 = dec83(bytearray(built))
+        except Exception as ex:
+            viol("ParseOfBuild", "Vpd83", "resized designator: raised " + type(ex).__name__, {"built": list(built)[:96]})
+            continue
+        if norm(d2) != norm(meant):
+            f1, f2 = flatten(norm_b(meant)), flatten(norm_b(d2))
+            diff = sorted(q for q in set(f1) | set(f2) if f1.get(q) != f2.get(q))
+            viol("ParseOfBuild", "Vpd83", "resized designator: " + (re.sub(r"/\d+", "/*", diff[0]) if diff else "?"),
+                 {"differs": diff[:8], "built": list(built)[:96]})
     # TransportIDs
     FS = mod(P + "scsi_cdb_persistentreservein").PersistentReserveInReadFullStatus
     from .c05 import transport_id
